@@ -57,6 +57,18 @@ def _cell_binop(op, a, b, shape):
     return cell
 
 
+def rebind(st, old, new):
+    """in-place mutation of an array value = every name of the state bound to it now sees the updated value (values are shared between
+    forked states, so they are never mutated; aliases held inside other containers are not followed - none occur in the verified code)"""
+    hit = False
+    for k, v in list(st.env.items()):
+        if v is old:
+            st.env[k] = new
+            hit = True
+    if not hit:
+        raise Unsupported("in-place update of an array that no local name is bound to")
+
+
 def size_of(shape):
     out = IntVal(1)
     for d in shape:
@@ -226,7 +238,7 @@ class NdContract(Contract):
         if is_nd(base) and len(base.shape) == 1 and getattr(base, "cell", None) is not None and isinstance(index, Abstract) and index.tag == "slice" \
                 and index.hi is None and index.step is None and isinstance(index.lo, int) and is_nd(value) and getattr(value, "cell", None) is not None:
             k0, old, new = index.lo, base.cell, value.cell
-            base.cell = lambda i: z3.If(i >= k0, new(i - k0), old(i))        # in-place slice assignment
+            rebind(st, base, self._derive(base, cell=lambda i: z3.If(i >= k0, new(i - k0), old(i))))      # in-place slice assignment
             return True
         return NotImplemented
 
